@@ -373,6 +373,31 @@ def reencode(schema: Schema, mi: MI, data: bytes, ops, rng, depth: int = 0, stat
                 out.append(r)
             i += 1
             continue
+        if fi.card == "map" and r.wt == LEN and ("dup" in ops or "perm" in ops) and rng.random() < 0.5:
+            # a map entry is a message {key = 1; value = 2}: its two fields are singular, so earlier occurrences are
+            # overridden by later ones (scalars; message values would merge) and their order is free
+            erecs = parse_records(r.payload)
+            if "dup" in ops:
+                for which, f2 in ((1, fi.key), (2, fi.val)):
+                    idx = [j for j, er in enumerate(erecs) if er.number == which]
+                    if idx and f2.type != "message" and rng.random() < 0.6:
+                        real = erecs[idx[-1]]
+                        stale = make_record(which, real.wt, _other_value(rng, f2, real))
+                        erecs.insert(rng.randrange(0, idx[-1] + 1), stale)
+                        hit("map_entry_dup_key" if which == 1 else "map_entry_dup_value")
+            if "perm" in ops and len(erecs) > 1 and rng.random() < 0.5:
+                # any order that keeps the relative order of the occurrences of one number
+                ones, twos = [er for er in erecs if er.number == 1], [er for er in erecs if er.number != 1]
+                merged = []
+                while ones or twos:
+                    src_ = ones if (ones and (not twos or rng.randrange(2))) else twos
+                    merged.append(src_.pop(0))
+                if [er.raw for er in merged] != [er.raw for er in erecs]:
+                    hit("map_entry_perm")
+                erecs = merged
+            out.append(make_record(fi.number, LEN, b"".join(er.raw for er in erecs)))
+            i += 1
+            continue
         sub = None
         if fi.type == "message" and fi.wkt is None and r.wt == LEN and fi.card != "map":
             sub = schema.msg(fi.msg)
